@@ -11,6 +11,7 @@ checks={
  "C04":("translation_validation","cli.ComputeDiff runs natively on old/new files built from the catalogue; for every function reported 'preserved' whose source was edited the solver must prove old and new equivalent (else a native distinguishing input is the violation); identical copies must be preserved with no added/removed operations","catalogue enumerated; default literal policy (documented-abstracted literal edits excluded); functions beyond the 5000-block guard not generated","4 C04"),
  "C12":("translation_validation","loop.DetectLoops/AnalyzeSCEV run natively on the same ssa.Function the engine executes symbolically; at each header evaluation the solver checks IV == Start + k*Step (mod width) and at loop exit body-executions == TripCount(args) for all argument values reaching at most 10 (8-bit loops: 300) header evaluations","loop catalogue enumerated (all five comparisons, both exit-test polarities, limit on either side, steps, constant/parameter bounds, continue/break/return, nested, sibling); trip-count trees evaluated in 200-bit vectors","4 C12"),
  "C08":("model_checking","bounded symbolic execution of detection.ComputeTopologySimilarity, MatchCalls, MatchSignature (IEEE doubles in the SMT FloatingPoint theory) and of jsondb.ScanTopology/ScanTopologyExact, composed by assume-guarantee contracts; every alert is shown to have a real confidence in [threshold,1] with no required call missing, descending order, threshold monotonicity and exact-implies-full","small universes (<=2 call keys, <=2 required calls, <=3 signatures), counters in [-4,2^20]; MatchSignature's contract is what the back-end harness uses; Pebble back end's filter not yet covered here; solvers and go/ssa trusted","4 C08"),
+ "C13":("model_checking","bounded symbolic execution of llm.executeOpenAIRaw (retry loop) over every script of 4 HTTP exchanges with symbolic transport failures, truncated bodies, status codes, decodability and item/role/content structure, compared with an independent specification of the retry discipline in both directions; then of llm.CallLLM/scanForInjection/validateOutput/parseLLMJSON with the provider call replaced by its proven contract: MATCH without error iff screen safe, both answers parsed, verdict exactly MATCH and evidence free of forbidden phrases; envelope structure of buildModernPrompts","net/http, encoding/json, context, regexp stubbed (listed in evidence); OpenAI-style path only (Gemini SDK path not encoded); verdict/evidence/message are short printable-ASCII strings; RunAudit's exit-status switch is not yet encoded; native replays drive the real client against an httptest server","4 C13"),
  "C15":("model_checking","bounded symbolic execution of diff.GetHardenedEnv from go/ssa over every environment of <=2 (thorough 3) ASCII entries of <=13 (14) bytes; every path's assertions discharged by z3 (cvc5 cross-check in thorough)","ASCII-only case mapping; os.Environ stubbed; bounds on entry count/length; Go compiler, go/ssa and the SMT solvers trusted","4 C15"),
  "C19":("model_checking","bounded symbolic execution of topology.typeListSimilarity, MapSimilarity and TopologySimilarity (doubles in the FloatingPoint theory; symmetry decided with float arithmetic abstracted to uninterpreted functions, integers exact): range [0,1], bit-exact symmetry, exactly 1.0 on field-wise equal topologies","counters <= 2^20, lists <= 2, 2-key maps; TopologySimilarity composed with the two helpers' proven contracts; that a renamed copy has an equal topology is a premise; the matcher clauses (one-to-one, threshold) are covered by the C09 harness","4 C19"),
  "C20":("model_checking","bounded symbolic execution of pebbledb.NewPebbleScanner's path guard (incl. resolveDBLocation, filepath.Join/Clean from their SSA) against a symbolic file-system table: symlink targets, working directories and new paths are solver-chosen clean absolute paths up to 7 (thorough 10) bytes; the true location is computed independently by the harness; both directions asserted on every path","file system modelled by a table of EvalSymlinks/Stat/Getwd answers in eight scenario families; path alphabet [a-z0-9._/-]; pebble.Open stubbed; native replays run read-only","4 C20"),
